@@ -1015,7 +1015,18 @@ def _v_random():
     return s.next_random() if s is not None else _real.random()
 
 
-class VDateTime(_dt.datetime):
+class _VDateTimeMeta(type):
+    """isinstance/issubclass against the shim behave as against the real class: the SDK (and changes to it) may test
+    values that were built with the real `datetime` elsewhere."""
+
+    def __instancecheck__(cls, obj):
+        return isinstance(obj, _dt.datetime)
+
+    def __subclasscheck__(cls, sub):
+        return issubclass(sub, _dt.datetime)
+
+
+class VDateTime(_dt.datetime, metaclass=_VDateTimeMeta):
     @classmethod
     def now(cls, tz=None):
         s = _sched_or_none()
